@@ -160,11 +160,16 @@ def inline_temps(func, keep=(), names_only=False):
             b = _base_name(n.target)
             if b:
                 mutated.add(b)
-        elif isinstance(n, ast.Expr) and isinstance(n.value, ast.Call) and \
-                isinstance(n.value.func, ast.Attribute):
-            b = _base_name(n.value.func.value)
-            if b:
-                mutated.add(b)
+        elif isinstance(n, ast.Expr) and isinstance(n.value, ast.Call):
+            # a call made for its effect: the receiver and the arguments may be updated in place
+            # (`x.sort()`, `np.put(mask, idx, True)`)
+            if isinstance(n.value.func, ast.Attribute):
+                b = _base_name(n.value.func.value)
+                if b:
+                    mutated.add(b)
+            for arg in list(n.value.args) + [k.value for k in n.value.keywords]:
+                if isinstance(arg, ast.Name):
+                    mutated.add(arg.id)
     for n in nested:
         for x in ast.walk(n):
             if isinstance(x, ast.Name):
